@@ -147,6 +147,8 @@ static Bytes gen_line(Src &s) {
     case 9: l = Bytes(s.pick(3), ' ') + gen_address(s, T) + Bytes(s.pick(3), s.chance(1, 2) ? ' ' : '\t'); break;       // blanks around
     case 10: l = gen_address(s, T); l.insert(s.pick((uint32_t) l.size() + 1), 1, '\0'); break;                         // NUL
     case 11: l = s.of(T.idn_u); l = "\xD0\xB8@x." + l; break;
+    case 12: { static const char *TAILS[] = {"\xF0", "\xF0\x9F", "\xF0\x9F\x98", "\xE2", "\xE2\x82", "\xC3", "\xF4\x8F\xBF"};      // ends inside a multi-byte sequence, any length
+               size_t n = s.chance(1, 2) ? 100 + s.pick(160) : 1 + s.pick(1200); l = Bytes(n, 'x') + "@example.com"; l += TAILS[s.pick(7)]; } break;
     default: l = gen_address(s, T);
     }
     for (auto &c : l) if (c == '\n') c = 'n';
@@ -180,11 +182,25 @@ static void stage_shapes(Run &R) {
             if (!go(Bytes(n, '\x01') + t)) return;
         }
     }
+    // lines that end inside a multi-byte sequence, at every length around the sizes a line buffer is likely to have
+    // (the text the tool reads may then end exactly where its buffer ends)
+    {
+        std::vector<size_t> lens; for (size_t n = 100; n <= 260; n++) lens.push_back(n);
+        for (size_t n : {30, 61, 62, 63, 64, 65, 478, 479, 480, 481, 499, 500, 510, 511, 512, 513, 958, 959, 960, 961, 1021, 1022, 1023, 1024, 1025, 4093, 4094, 4095, 4096, 4097}) lens.push_back(n);
+        for (size_t n : lens) for (const char *tail : {"\xF0", "\xF0\x9F", "\xF0\x9F\x98", "\xE2", "\xE2\x82", "\xC3"}) {
+            size_t tl = strlen(tail); if (n < tl + 13) continue;
+            Bytes line = Bytes(n - tl - 12, 'x') + "@example.com" + tail;
+            int k = (int) ((n * 7 + tl) % 3);                       // terminator and position rotate so that every length meets each of them
+            if (!go(line + (k == 0 ? "\n" : k == 1 ? "" : "\r\n"))) return;
+            if (!go("a@example.com\n" + line + (k == 1 ? "\n" : k == 2 ? "" : "\r\n"))) return;
+            if (n >= 117 && n <= 122 || n >= 237 && n <= 242) for (const char *t : {"\n", "", "\r\n"}) { if (!go(line + t)) return; if (!go("a@example.com\n" + line + t)) return; if (!go(line + t + (*t ? "b@example.com\n" : ""))) return; }
+        }
+    }
     if (!go(Bytes("a@b.com\n\nc@d.com\n"))) return; if (!go(Bytes("\n\n\n"))) return; if (!go(Bytes("a@b.com\n\0x@y.com\nz@w.com\n", 25))) return;
     { Bytes a = "a@b.com\nbad@@x\n", b = "\xD0\xB8@\xD0\xBF\xD0\xBE\xD1\x87\xD1\x82\xD0\xB0.\xD1\x80\xD1\x84\r\nlast@no.newline.com", c = "u@" + Bytes(3000, 'a') + ".com\nx@y.org\n", e = "";
       for (auto &pr : std::vector<std::pair<Bytes, Bytes>>{{a, b}, {b, a}, {c, a}, {a, c}, {e, a}, {a, e}, {c, c}}) { total++; if ((int) (idx++ % R.a.nworkers) != R.a.worker) continue; auto x = check_two_files(R, pr.first, pr.second); if (x && !R.fail(*x)) return; } }
     for (const char *fn : {"pass-email-ascii.txt", "fail-email-ascii.txt", "email-utf8.txt", "email-reg.ru.txt", "localpart-utf8.txt", "domain-length.txt", "email-result-check.txt"}) if (!go(slurp(R.a.datadir + "/" + fn))) return;
-    R.space("C20 single-line files: 20 line shapes + lengths around 1024/2048/4096/8192 in 3 fillings, x {LF, CRLF, no final newline}; multi-line empties; the repository's data files", total);
+    R.space("C20 single-line files: 20 line shapes + lengths around 1024/2048/4096/8192 in 3 fillings, x {LF, CRLF, no final newline}; lines of 100..260 and ~30 other lengths ending inside a multi-byte sequence (6 tails, first or second line); multi-line empties; the repository's data files", total);
 }
 
 int main(int argc, char **argv) {
